@@ -79,9 +79,12 @@ func perturbModel(rt *rapid.T, mp *onnx.ModelProto) string {
 	k := rapid.SampledFrom(kinds).Draw(rt, "perturbation")
 	switch k {
 	case "opset":
-		switch rapid.IntRange(0, 4).Draw(rt, "opsetKind") {
+		switch rapid.IntRange(0, 5).Draw(rt, "opsetKind") {
 		case 0:
 			mp.OpsetImport = nil
+		case 5:
+			// versions that only equal 13 after truncation to 32 or 16 bits
+			mp.OpsetImport = []*onnx.OperatorSetIdProto{{Version: rapid.SampledFrom([]int64{1<<32 + 13, 1<<33 + 13, 1<<40 | 13, 1<<16 + 13, -(1<<32 - 13), 1<<63 - 1}).Draw(rt, "wideVersion")}}
 		case 1:
 			mp.OpsetImport = []*onnx.OperatorSetIdProto{{Version: int64(rapid.IntRange(-1, 25).Draw(rt, "version"))}}
 		case 2:
@@ -286,6 +289,13 @@ func TestC18(t *testing.T) {
 		} else {
 			gg := genGraph(rt, ggOpts{maxNodes: 5, allOutputs: true})
 			mp = gg.model(rt)
+			if rapid.IntRange(0, 19).Draw(rt, "manyInitializers") == 0 {
+				// far more weights than the sample models carry (the largest has 11)
+				src = "generated-many-initializers"
+				for i, n := 0, rapid.SampledFrom([]int{32, 33, 64, 65, 100, 200}).Draw(rt, "nInit"); i < n; i++ {
+					mp.Graph.Initializer = append(mp.Graph.Initializer, encodeTensor(fmt.Sprintf("extra%d", i), []int{2}, []float32{float32(i), 1}, i%2 == 0))
+				}
+			}
 		}
 		var kinds []string
 		for i := rapid.IntRange(1, 3).Draw(rt, "nPerturbations"); i > 0; i-- {
@@ -303,6 +313,24 @@ func TestC18(t *testing.T) {
 		ev.Case("structured", fmt.Sprintf("%s %v #%x", src, kinds, hash64(string(b))), cls != "unparseable" && cls != "parsed-empty", cl...)
 		if v != "" {
 			rt.Fatalf("C18 violated by %s model perturbed with %v: %s", src, kinds, v)
+		}
+	})
+
+	check(t, "many-initializers-load", 150, 1500, func(rt *rapid.T) {
+		gg := genGraph(rt, ggOpts{maxNodes: 3, allOutputs: true})
+		mp := gg.model(rt)
+		n := rapid.SampledFrom([]int{31, 32, 33, 63, 64, 65, 100, 200, 500}).Draw(rt, "nInit")
+		for i := 0; i < n; i++ {
+			mp.Graph.Initializer = append(mp.Graph.Initializer, encodeTensor(fmt.Sprintf("extra%d", i), []int{2}, []float32{float32(i), 1}, i%2 == 0))
+		}
+		b := marshalModel(mp)
+		ev.Case("many-initializers-load", fmt.Sprintf("%d extra initializers on %v", n, gg), true, fmt.Sprintf("n=%d", n))
+		v, _ := c18Oracle(b)
+		if v != "" {
+			rt.Fatalf("C18 violated by a valid model with %d initializers: %s", n, v)
+		}
+		if lr := loadBytes(b); lr.err != nil {
+			rt.Fatalf("C18 violated: a valid model with %d initializers is refused: %v", n, lr.err)
 		}
 	})
 
@@ -376,6 +404,16 @@ func TestC18(t *testing.T) {
 			}
 		}
 		orig := mp.Graph.Node[i].OpType
+		if dead && rapid.Bool().Draw(rt, "noNamedOutputs") {
+			// a node may also declare no outputs at all, or only skipped ("") ones
+			if rapid.Bool().Draw(rt, "emptyNames") {
+				for k := range mp.Graph.Node[i].Output {
+					mp.Graph.Node[i].Output[k] = ""
+				}
+			} else {
+				mp.Graph.Node[i].Output = nil
+			}
+		}
 		name := rapid.SampledFrom([]string{"", "Identity", "Erf", "Dropout", "LeakyRelu", "relu", "RELU", orig + "V2", "ai.onnx." + orig, " " + orig}).Draw(rt, "unknown")
 		if known[name] {
 			return
